@@ -5,6 +5,7 @@ package ship
 import (
 	"time"
 
+	"github.com/enbility/ship-go/api"
 	"github.com/enbility/ship-go/model"
 )
 
@@ -95,3 +96,27 @@ func (c *ShipConnection) VerifFireTimeoutOf(token interface{}) bool {
 	}
 	return true
 }
+
+// VerifWrap, if set before connections are created, may replace the info provider and the data writer a new
+// connection uses by observing wrappers (recording of the calls a connection makes under real concurrency)
+var VerifWrap func(p api.ShipConnectionInfoProviderInterface, w api.WebsocketDataWriterInterface, role string, remoteSki string) (api.ShipConnectionInfoProviderInterface, api.WebsocketDataWriterInterface)
+
+// VerifEntry, if set, is told when an entry point of a connection (Run, timeout, approve, abort, close) starts;
+// the returned function is called when it is left
+var VerifEntry func(c *ShipConnection, kind string) func()
+
+func verifWrap(p api.ShipConnectionInfoProviderInterface, w api.WebsocketDataWriterInterface, role shipRole, remoteSki string) (api.ShipConnectionInfoProviderInterface, api.WebsocketDataWriterInterface) {
+	if VerifWrap == nil {
+		return p, w
+	}
+	return VerifWrap(p, w, string(role), remoteSki)
+}
+
+func verifEntry(c *ShipConnection, kind string) func() {
+	if VerifEntry == nil {
+		return verifNoop
+	}
+	return VerifEntry(c, kind)
+}
+
+func verifNoop() {}
